@@ -219,6 +219,21 @@ def nonneg(d, env, depth):
         return True
     if depth > 3:
         return None
+    # a bounded symbol s <= cap: a negative occurrence of s is at least as large as the same occurrence of cap
+    neg_b = [t for t, w in d.c.items() if w < 0 and t in env.bounded]
+    if neg_b:
+        c2 = dict(d.c)
+        for t in neg_b:
+            c2["cap"] = c2.get("cap", 0) + c2.pop(t)
+        if nonneg(Lin(c2, d.k), env, depth + 1):
+            return True
+    # max(x, y) with a negative coefficient: every argument must satisfy the bound
+    for s_, v in d.c.items():
+        mm = env.minmax.get(s_)
+        if mm is not None and ((mm[0] == "max" and v < 0) or (mm[0] == "min" and v > 0)):
+            rest = Lin(dict((t, w) for t, w in d.c.items() if t != s_), d.k)
+            if all(nonneg(rest + Lin(dict((t, w * v) for t, w in x.c.items()), x.k * v), env, depth + 1) for x in mm[1]):
+                return True
     # max(x, y) >= x, y (positive coefficient)  /  min(x, y) <= x, y (negative coefficient)
     for s, v in d.c.items():
         mm = env.minmax.get(s)
